@@ -839,7 +839,7 @@ def dw_consts(ctx, ty, prefix=None):
         raise Lost('dw! ' + ty)
     out = ['#[derive(Clone, Copy, PartialEq, Eq, Debug)]\npub struct %s(pub %s);' % (ty, m.group(1))]
     n = 0
-    for name, val in re.findall(r'(\w+)\s*=\s*(0x[0-9a-fA-F_]+|\d+)\s*,', m.group(2)):
+    for name, val in re.findall(r'(\w+)\s*=\s*(0x[0-9a-fA-F_]+|\d+)\s*(?:,|$)', m.group(2).strip()):
         out.append(f'pub const {name}: {ty} = {ty}({val});')
         n += 1
     if n == 0:
